@@ -209,11 +209,24 @@ def check(prog, run):
         r.instance("O-enum %s: %s" % (label, ok))
         if not ok:
             run.report(r, "%s:%s:O-enum" % (f.module.name, f.qualname), f.where(), "%s does not map enum names with EnumType.get_value" % label)
-    # O-wrap
+    # O-wrap (path form): when the type is a list type and the value is not a list, some returning execution hands back a
+    # one-element list holding the recursive coercion of the value
     def wraps(f, callee):
-        for n in ast.walk(f.node):
-            if isinstance(n, ast.Return) and isinstance(n.value, ast.List) and len(n.value.elts) == 1 and isinstance(n.value.elts[0], ast.Call) \
-                    and ast.unparse(n.value.elts[0].func) == callee and len(n.value.elts[0].args) >= 2 and ast.unparse(n.value.elts[0].args[1]).endswith(".type"):
+        from .. import dispatch
+        tparam = [a.arg for a in f.node.args.args if a.arg.startswith("type")]
+        if not tparam:
+            return False
+
+        def not_a_list(t):
+            if t.startswith("isinstance(") and ("ListValue" in t or "list" in t.split(",", 1)[-1]):
+                return False
+            return None
+        for kind, st, env in dispatch.executions(prog, f, tparam[0], "ListType", extra=not_a_list):
+            if kind != "return" or st is None or st.value is None:
+                continue
+            v = boolx.path_subst(st.value, boolx.path_env(env.get(boolx.STMTS, ()), st))
+            if isinstance(v, ast.List) and len(v.elts) == 1 and isinstance(v.elts[0], ast.Call) and isinstance(v.elts[0].func, ast.Name) \
+                    and v.elts[0].func.id == callee and len(v.elts[0].args) >= 2:
                 return True
         return False
     for f, callee, label in ((clv, "coerce_value", "variable route"), (vfa, "value_from_ast", "literal route")):
@@ -344,6 +357,7 @@ def check(prog, run):
             run.report(r, "%s:%s:unhandled(%s)" % (f.module.name, f.qualname, exc), f.where(), "%s lets %s escape as is" % (f.qualname, exc))
 
     check_numeric_conversions(prog, run, "I4")
+    check_element_type(prog, run, "L1", cv, clv, vfa)
     check_default_only_when_absent(prog, run, "D1")
     from . import c04
     c04.check_context_threading(prog, run, "V1")
@@ -358,6 +372,50 @@ NUMERIC_CATALOGUE_TEXT = (
     "raise OverflowError for the kind of argument reaching it (int(float) for ±inf, float(int) for integers beyond the double "
     "range, any conversion of an argument of unknown kind) sits inside a handler for OverflowError/ArithmeticError: "
     "ScalarType.parse/serialize convert only ValueError|TypeError, so an OverflowError leaves the request as an internal exception")
+
+
+def check_element_type(prog, run, rule_id, cv, clv, vfa):
+    """L1: the item type handed to the recursive coercion of list elements."""
+    from .. import dispatch
+    r = run.rule(rule_id, "list coercion on both routes (value_from_ast, _coerce_list_value): on every execution where the type is a "
+                          "ListType, each recursive coercion of an element (or of the single value wrapped into a list) is given "
+                          "exactly `<list type>.type` (path value, local aliases followed): an item type unwrapped or replaced on the "
+                          "way lets a null — e.g. a variable holding null inside a list literal — into a NonNull item position", 2)
+    names = {cv.name, vfa.name}
+    for f in (vfa, clv):
+        tparam = None
+        for a in f.node.args.args:
+            if a.arg.startswith("type"):
+                tparam = a.arg
+        if tparam is None:
+            raise AnalysisError("C07.%s: type parameter of %s not found" % (rule_id, f.qualname))
+        exits = dispatch.executions(prog, f, tparam, "ListType")
+        seen_calls = 0
+        bad = {}
+        for kind, st, env in exits:
+            if kind == "raise":
+                continue
+            stmts = env.get(boolx.STMTS, ())
+            for c in env.get(boolx.CALLS, ()):
+                fname = c.func.id if isinstance(c.func, ast.Name) else None
+                if fname not in names or len(c.args) < 2:
+                    continue
+                holder = c
+                while holder is not None and not isinstance(holder, ast.stmt):
+                    holder = getattr(holder, "_parent", None)
+                penv = boolx.path_env(stmts, holder)
+                t = " ".join(ast.unparse(boolx.path_subst(c.args[1], penv)).split())
+                seen_calls += 1
+                if t != "%s.type" % tparam:
+                    bad.setdefault(t, c)
+        r.instance("%s: %d element coercions on %d list-type executions" % (f.qualname, seen_calls, len(exits)))
+        if not seen_calls:
+            run.report(r, "%s:%s:element-type(none)" % (f.module.name, f.qualname), f.where(),
+                       "no recursive coercion of the elements is reached when the type is a list type")
+        for t, c in sorted(bad.items()):
+            run.report(r, "%s:%s:element-type(%s)" % (f.module.name, f.qualname, t), f.where(c),
+                       "an element of a list is coerced against `%s` instead of the list's item type `%s.type` on some execution: "
+                       "what the item type requires (non-null, the element's own wrappers) is not enforced for it" % (t, tparam))
 
 
 def check_numeric_conversions(prog, run, rule_id):
